@@ -124,6 +124,89 @@ func play(o ls.Options, raw []byte, chunks []int, sleeps []int32, space string) 
 	}
 }
 
+// relisten: the port is used a second time. A first listener with options
+// `first` receives a warm-up stream and is stopped; a second listener with
+// options o on the SAME port must then behave exactly like a listener on a
+// fresh port (projection of the all-options run), time stamps counted from
+// its own Listen.
+func relisten(first, o ls.Options, raw []byte, chunks []int, warm []byte) {
+	full := ls.NewLoop(ls.All(buf))
+	rest := ls.NewLoop(first)
+	ctx.Eval()
+	if len(warm) > 0 {
+		rest.Send(warm)
+	}
+	rest.Drv.Sleep(7 * time.Millisecond)
+	rest.Relisten(o)
+	if rest.Err != nil {
+		report("relisten:error:"+optName(first)+"->"+optName(o), o, raw, chunks, nil, "second ListenTo on the same port failed: "+rest.Err.Error())
+		return
+	}
+	pos := 0
+	for _, n := range chunks {
+		d := 2 * time.Millisecond
+		full.Drv.Sleep(d)
+		rest.Drv.Sleep(d)
+		_, c1 := full.Send(raw[pos : pos+n])
+		_, c2 := rest.Send(raw[pos : pos+n])
+		if c1.Panicked || c2.Panicked {
+			if c2.Panicked && !c1.Panicked {
+				report(c2.Sig+":relisten", o, raw, chunks, nil, "Send panicked after listening again: "+c2.Value)
+			}
+			return
+		}
+		pos += n
+	}
+	want := project(full.Got, o)
+	if len(want) != len(full.Got) {
+		ctx.NontrivialN(1)
+	}
+	// time stamps of the second listener start at its Listen: compare relative to the first delivery
+	if d := diffRel(want, rest.Got); d != "" {
+		report("relisten:"+d+":"+optName(first)+"->"+optName(o), o, raw, chunks, nil,
+			fmt.Sprintf("first listener %s, then %s on the same port: fresh port delivers [%s], re-used port [%s]", optName(first), optName(o), ls.RenderDeliveries(want), ls.RenderDeliveries(rest.Got)))
+	}
+}
+
+// diffRel is diff with time stamps compared as differences between deliveries.
+func diffRel(want, got []ls.Delivered) string {
+	w := append([]ls.Delivered(nil), want...)
+	g := append([]ls.Delivered(nil), got...)
+	if len(w) > 0 && len(g) > 0 {
+		w0, g0 := w[0].TS, g[0].TS
+		for i := range w {
+			w[i].TS -= w0
+		}
+		for i := range g {
+			g[i].TS -= g0
+		}
+	}
+	return diff(w, g)
+}
+
+func relistenSpace(fi int) {
+	cs := combos()
+	first := cs[fi]
+	streams := [][]byte{
+		{0x90, 0x3C, 0x40, 0xF0, 0x10, 0x11, 0xF7, 0xF8, 0xFE, 0x3E, 0x00},
+		{0xF0, 0x10, 0x11, 0x12, 0xF7, 0xC0, 0x05, 0xF0, 0xF7},
+		{0xFE, 0xF8, 0xF2, 0x01, 0x7F, 0xF0, 0x10, 0xF7, 0x90, 0x01, 0x02},
+	}
+	warms := [][]byte{nil, {0x90, 0x3C, 0x40}, {0xF0, 0x10}, {0x90, 0x3C}, {0xF0, 0x10, 0x11, 0x12, 0xF7}}
+	for _, o := range cs {
+		for _, raw := range streams {
+			for _, warm := range warms {
+				relisten(first, o, raw, []int{len(raw)}, warm)
+				bw := make([]int, len(raw))
+				for i := range bw {
+					bw[i] = 1
+				}
+				relisten(first, o, raw, bw, warm)
+			}
+		}
+	}
+}
+
 func compositions(n int, f func([]int)) {
 	for mask := 0; mask < 1<<(n-1); mask++ {
 		var c []int
@@ -276,6 +359,7 @@ func main() {
 		}
 	}
 	ctx.Jobs("sender", len(jobs), func(j int) { senderSpace(jobs[j].o, jobs[j].first) })
+	ctx.Jobs("relisten", len(cs), func(j int) { relistenSpace(j) })
 	ctx.Set("traces_validated_against_impl", ctx.GetInt("transitions"))
 	ctx.Set("max_depth", ctx.GetInt("max:depth"))
 	ctx.Set("fixpoint_reached", ctx.GetInt("fixpoints_reached") == ctx.GetInt("searches"))
